@@ -155,7 +155,7 @@ def search(acc: Acc, tier, shard, nshards):
         ch = model.Ch(data.draw)
         counter["i"] += 1
         st_ = {}
-        doc = model.Gen(ch, prof, st_).document()
+        doc = model.any_document(model.Gen(ch, prof, st_))
         text = render.render(doc, render.Surface(ch) if ch.bool() else None).text
         vals = all_string_values(doc)
         nonascii = any(not s.isascii() for s in vals)
